@@ -402,8 +402,8 @@ def make_machine(max_n: int):
 def plan(tier: str) -> list[dict]:
     if tier == "quick":
         return [{"max_n": 5, "examples": 300, "steps": 30, "cost": 3} for _ in range(5)] + [{"mode": "fuzz", "runs": 4000, "cost": 3}]
-    return ([{"max_n": 5, "examples": 1500, "steps": 60, "cost": 10} for _ in range(14)]
-            + [{"mode": "fuzz", "runs": 150000, "cost": 10} for _ in range(2)])
+    return ([{"max_n": 5, "examples": 700, "steps": 60, "cost": 10} for _ in range(14)]
+            + [{"mode": "fuzz", "runs": 80000, "cost": 10} for _ in range(2)])
 
 
 def run_fuzz(spec: dict, ctx: Ctx) -> None:
